@@ -16,6 +16,7 @@ Definition oRem (s : Z) : op := RemoveHandlers (zn s).
 Definition oClose (s : Z) : op := Close (zn s).
 Definition oEv (r : Z) (k : ekind) (o : Z) : op := Event (zn r) k (zn o).
 Definition oTick (s h : Z) : op := Tick (zn s) (zn h).
+Definition oSubU (r : Z) : op := SubscribeUnknown (zn r).
 Definition dA (s h o : Z) : delivery := (zn s, zn h, NAdd (zn o)).
 Definition dU (s h o : Z) : delivery := (zn s, zn h, NUpd (zn o)).
 Definition dD (s h o : Z) : delivery := (zn s, zn h, NDel (zn o)).
@@ -28,9 +29,14 @@ Record C18_obs := mkObs {
   ob_watch : list Z;         (* per resource 0..: open WATCH streams after settling *)
   ob_lists : list Z          (* per resource 0..: LIST requests served so far *)
 }.
-(* c_windows: indices of Event steps that the harness emitted WHILE the
-   AddHandler of the preceding step was still inside its replay callbacks
-   (the handler of that step was blocked by the harness, then released) *)
+(* c_windows: indices of window steps.
+   - an Event step that the harness emitted WHILE the AddHandler of the preceding
+     step was still inside its replay callbacks (the handler of that step was
+     blocked by the harness, then released);
+   - a RemoveHandlers step issued WHILE the fan-out of the preceding Event step was
+     parked inside another subscriber's handler: its deliveries are exactly what
+     the removed subscription's handlers received after RemoveEventHandlers() had
+     RETURNED (everything else is in the Event step). *)
 Record C18_case := mkC18 { c_nres : Z; c_steps : list C18_obs; c_windows : list Z }.
 
 (* ---- multisets of deliveries ---- *)
@@ -167,6 +173,32 @@ Definition prop_step (nres : nat) (tr : tracker) (ex : nat -> nat) (prev : optio
     ("panic", negb (ob_panic ob))
   ].
 
+(* the clauses about the harness's deterministic windows are evaluated first, over
+   the whole case: what they flag would otherwise surface under a less specific
+   clause at an earlier step *)
+Definition win_step (tr : tracker) (ob : C18_obs) : option string :=
+  let o := ob_op ob in
+  let obs := ob_dels ob in
+  first_fail [
+    (* once RemoveEventHandlers() has returned, the subscription's handlers receive
+       nothing, not even an event whose fan-out was in progress *)
+    ("event-delivered-after-removal-returned",
+       match o with
+       | RemoveHandlers s => forallb (fun d => negb (Nat.eqb (d_sub d) s)) obs
+       | _ => true
+       end)
+  ].
+
+Fixpoint win_steps (wins : list nat) (k : nat) (tr : tracker) (l : list C18_obs) : option string :=
+  match l with
+  | [] => None
+  | ob :: l' =>
+      match (if memn k wins then win_step tr ob else None) with
+      | Some c => Some (at_step c k)
+      | None => win_steps wins (S k) (track_step tr (ob_op ob)) l'
+      end
+  end.
+
 Fixpoint prop_steps (nres : nat) (wins : list nat) (k : nat) (tr : tracker) (ex : nat -> nat)
                     (prev : option C18_obs) (l : list C18_obs) : option string :=
   match l with
@@ -219,6 +251,9 @@ Fixpoint model_steps (nres : nat) (k : nat) (st : state) (l : list C18_obs) : op
 
 Definition C18_check (c : C18_case) : verdict :=
   let nres := zn (c_nres c) in
+  match win_steps (map zn (c_windows c)) 0 tr0 (c_steps c) with
+  | Some cl => PROPFAIL cl
+  | None =>
   match prop_steps nres (map zn (c_windows c)) 0 tr0 (fun _ => 0) None (c_steps c) with
   | Some cl => PROPFAIL cl
   | None =>
@@ -226,4 +261,5 @@ Definition C18_check (c : C18_case) : verdict :=
       | Some w => DIVERGE w
       | None => OK
       end
+  end
   end.
